@@ -22,6 +22,8 @@ try:
         sid = os.path.basename(d)
         if flt and not any(f in sid for f in flt.split(",")): continue
         meta = json.load(open(os.path.join(d, "meta.json")))
+        if meta.get("status") == "overtaken":
+            print(f"{sid}: OVERTAKEN by a repair of the unchanged tree (patch kept for the record)"); results[sid] = {"property": meta["property"], "overtaken": True}; continue
         runs = re.findall(r"(C\d\d) (quick|thorough)", meta.get("caught_by", ""))
         if not runs: runs = [(meta["property"], "quick")]
         seen = []; 
